@@ -1,6 +1,6 @@
 (* C24 — LRU caches behave as bounded least-recently-used maps.
    Property theorems only; each is closed by an earlier lemma. *)
-From LiquidVerif Require Import Prelude Lru Lru_Proofs.
+From LiquidVerif Require Import Prelude Lru Lru_Proofs LruSpec LruSpec_Proofs.
 From Coq Require Import Sorted.
 
 (* at most capacity entries, never two entries for one key, after every operation sequence *)
@@ -67,9 +67,129 @@ Theorem C24_lazy_listing_refuted : exists n acts, In TRuntimeError (trun Lazy (t
 Proof. exact lazy_listing_refuted. Qed.
 Print Assumptions C24_lazy_listing_refuted.
 
+(* ================= refinement to the abstract bounded LRU map (LruSpec.v) ================= *)
+
+(* the states a cache can reach satisfy the invariant: one entry per key, capacity at least 1 and never exceeded,
+   entries in order of last use, every last-use time in the past *)
+Theorem C24_reachable_invariant : forall n ops, 1 <= n -> RInv (gfinal (gempty n) ops).
+Proof. exact reachable_rinv. Qed.
+Print Assumptions C24_reachable_invariant.
+
+Theorem C24_invariant_preserved : forall g o, RInv g -> RInv (fst (gstep g o)).
+Proof. exact gstep_rinv. Qed.
+Print Assumptions C24_invariant_preserved.
+
+(* EVERY public operation (c[k], c.get(k, d), c.get(k), c[k] = v, del c[k], k in c, len(c), keys, values, items, iter) of
+   the OrderedDict machine is the same operation of the abstract bounded LRU map LruSpec.lru_step -- a function from keys
+   to (value, time of last use), no list order --, with the same result: lookups and stores are uses, a store of a new
+   key into a full map evicts exactly the key whose last use is oldest, membership / len / listings change nothing,
+   listings hold every entry once, most recently used first *)
+Theorem C24_refines_bounded_lru : forall g o, RInv g ->
+  lru_step (gcap g) (amap_of g) (clock g) o (amap_of (fst (gstep g o))) (snd (gstep g o)) /\
+  clock (fst (gstep g o)) = S (clock g) /\ gcap (fst (gstep g o)) = gcap g.
+Proof. exact gstep_refines. Qed.
+Print Assumptions C24_refines_bounded_lru.
+
+Theorem C24_reachable_refines : forall n ops o, 1 <= n ->
+  let g := gfinal (gempty n) ops in
+  lru_step n (amap_of g) (clock g) o (amap_of (fst (gstep g o))) (snd (gstep g o)).
+Proof. exact reachable_refines. Qed.
+Print Assumptions C24_reachable_refines.
+
+(* ================= the remaining public surface ================= *)
+
+(* construction: LRUCache(capacity) raises ValueError exactly for a capacity below 1 (0, negative); otherwise the cache is
+   empty with that capacity *)
+Theorem C24_construction : forall n,
+  (make n = None <-> (n < 1)%Z) /\
+  (forall c, make n = Some c -> items c = [] /\ Z.of_nat (cap c) = n /\ wf c).
+Proof. exact make_spec. Qed.
+Print Assumptions C24_construction.
+
+(* `k in c`, len(c) and the four listings are NOT uses: no entry moves and no last-use time changes *)
+Theorem C24_membership_len_listings_are_not_uses : forall g c o, readonly o = true ->
+  gitems (fst (gstep g o)) = gitems g /\ fst (step c o) = c.
+Proof. exact readonly_no_use. Qed.
+Print Assumptions C24_membership_len_listings_are_not_uses.
+
+(* neither is a lookup or deletion of a key that is not cached *)
+Theorem C24_missing_key_is_not_a_use : forall g k, glookup k (gitems g) = None ->
+  gitems (fst (gstep g (Get k))) = gitems g /\ (forall d, gitems (fst (gstep g (GetD k d))) = gitems g) /\
+  gitems (fst (gstep g (GetN k))) = gitems g /\ gitems (fst (gstep g (Del k))) = gitems g.
+Proof. exact miss_no_use. Qed.
+Print Assumptions C24_missing_key_is_not_a_use.
+
+(* a successful lookup by any of the three spellings makes the key the first entry of the listings; the others keep
+   their relative order *)
+Theorem C24_lookup_moves_to_front : forall g k v t o,
+  glookup k (gitems g) = Some (v, t) -> (o = Get k \/ (exists d, o = GetD k d) \/ o = GetN k) ->
+  snd (gstep g o) = OVal v /\
+  snd (gstep (fst (gstep g o)) Items) = OItems ((k, v) :: rev (erase_items (gremove k (gitems g)))).
+Proof. exact lookup_moves_to_front. Qed.
+Print Assumptions C24_lookup_moves_to_front.
+
+(* re-inserting a cached key replaces its value, moves it to the front and evicts nothing *)
+Theorem C24_store_existing_moves_to_front : forall g k v v0 t,
+  glookup k (gitems g) = Some (v0, t) ->
+  snd (gstep (fst (gstep g (Set_ k v))) Items) = OItems ((k, v) :: rev (erase_items (gremove k (gitems g)))) /\
+  forall k', k' <> k -> glookup k' (gitems (fst (gstep g (Set_ k v)))) = glookup k' (gitems g).
+Proof. exact store_existing_moves_to_front. Qed.
+Print Assumptions C24_store_existing_moves_to_front.
+
+Theorem C24_len_and_iter : forall c, snd (step c Len) = OLen (length (items c)) /\ snd (step c Iter) = snd (step c Keys).
+Proof. exact len_and_iter. Qed.
+Print Assumptions C24_len_and_iter.
+
+(* c.get(k) without a default: the most recently stored value, else None; a use exactly like c[k] *)
+Theorem C24_get_without_default : forall n ops k,
+  let g := gfinal (gempty n) ops in
+  match glookup k (gitems g) with
+  | Some (v, t) => snd (gstep g (GetN k)) = OVal v /\ last_stored (rev ops) k = Some v /\
+                   fst (gstep g (GetN k)) = fst (gstep g (Get k))
+  | None => snd (gstep g (GetN k)) = ONone /\ fst (gstep g (GetN k)) = fst (gstep g (Get k))
+  end.
+Proof. exact getn_returns_latest. Qed.
+Print Assumptions C24_get_without_default.
+
+(* ================= thread-safe class ================= *)
+
+(* every public method, whatever the operation, is one atomic section: one step of the plain cache on the current
+   contents; it returns that step's result and touches no iterator *)
+Theorem C24_every_method_atomic : forall m s tid o,
+  tc (fst (tstep m s (Call tid o))) = fst (step (tc s) o) /\
+  snd (tstep m s (Call tid o)) = TOut (snd (step (tc s) o)) /\
+  titers (fst (tstep m s (Call tid o))) = titers s.
+Proof. exact call_is_atomic. Qed.
+Print Assumptions C24_every_method_atomic.
+
+(* the listing methods return SNAPSHOTS: what a thread is handed after it began a listing is exactly the items as they
+   were when the listing method ran, most recent first, however the schedule interleaves the other actions *)
+Theorem C24_listing_is_snapshot : forall tid s acts,
+  no_begin tid acts = true ->
+  yields_of tid (ListBegin tid :: acts) (trun Snapshot s (ListBegin tid :: acts)) =
+  firstn (nexts tid acts) (rev (items (tc s))).
+Proof. exact snapshot_listing_is_snapshot. Qed.
+Print Assumptions C24_listing_is_snapshot.
+
 (* non-vacuity: a concrete full cache in which an eviction happens *)
 Example C24_eviction_nonvacuous :
   let g := gfinal (gempty 2) [Set_ 1%N 10%Z; Set_ 2%N 20%Z; Get 1%N] in
   glookup 3%N (gitems g) = None /\ gcap g <= length (gitems g) /\
   gitems (fst (gstep g (Set_ 3%N 30%Z))) = [(1%N, 10%Z, 2); (3%N, 30%Z, 3)].
 Proof. vm_compute. repeat split; lia. Qed.
+
+(* non-vacuity of the refinement's eviction rule and of the snapshot theorem *)
+Example C24_refinement_nonvacuous :
+  let g := gfinal (gempty 2) [Set_ 1%N 10%Z; Set_ 2%N 20%Z; GetN 1%N; Contains 2%N] in
+  RInv g /\ amap_of g 2%N = Some (20%Z, 1) /\ amap_of g 1%N = Some (10%Z, 2) /\
+  amap_of (fst (gstep g (Set_ 3%N 30%Z))) 2%N = None /\ amap_of (fst (gstep g (Set_ 3%N 30%Z))) 3%N = Some (30%Z, 4).
+Proof. split; [apply reachable_rinv; lia|vm_compute; repeat split]. Qed.
+
+Example C24_snapshot_nonvacuous :
+  let acts := [ListBegin 1; Call 2 (Set_ 3%N 30%Z); ListNext 1; Call 2 (Del 1%N); ListNext 1; ListNext 1] in
+  let s := tfinal Snapshot (tinit 2) [Call 0 (Set_ 1%N 10%Z); Call 0 (Set_ 2%N 20%Z)] in
+  yields_of 1 acts (trun Snapshot s acts) = [(2%N, 20%Z); (1%N, 10%Z)].
+Proof. vm_compute. reflexivity. Qed.
+
+Example C24_construction_examples : make 0 = None /\ make (-3) = None /\ make 1 = Some (empty 1).
+Proof. vm_compute. repeat split. Qed.
